@@ -11,7 +11,7 @@ import (
 	"verif/mc/ref"
 )
 
-var c05Opts = []string{"none", "SET", "MULTISET", "SETKEYS:id", "MERGE", "SET+MERGE", "MULTISET+MERGE"}
+var c05Opts = []string{"none", "SET", "MULTISET", "SETKEYS:id", "SETKEYS:id,t", "MERGE", "SET+MERGE", "MULTISET+MERGE"}
 
 func stripMerge(o string) string {
 	o = strings.TrimSuffix(o, "+MERGE")
